@@ -827,6 +827,79 @@ mut("c06-benign-payload-len-local", "C06", RQ,
     None, "payload_rem widened into a local first")
 
 # ---- C03 -------------------------------------------------------------------------------------------------
+mut("c03-compress-stale-gap-in-guard", "C03", ST,
+    """        // [parsed_start, gap_start) moved to [0, gap_start - parsed_start)
+        self.gap_start -= self.parsed_start;
+        self.parsed_start = 0;
+
+        if self.gap_start < self.raw_start && self.raw_start < self.free_start {
+            self.buffer.copy_within(self.raw_start..self.free_start, self.gap_start);
+        }""",
+    """        let old_gap = self.gap_start;
+        self.gap_start -= self.parsed_start;
+        self.parsed_start = 0;
+
+        if old_gap < self.raw_start && self.raw_start < self.free_start {
+            self.buffer.copy_within(self.raw_start..self.free_start, self.gap_start);
+        }""",
+    "R3.10/compress/postcondition", "with no gap between stream bytes and raw input the raw input is not moved although raw_start is (seed C03-b)")
+mut("c03-compress-raw-first", "C03", ST,
+    """        if 0 < self.parsed_start && self.parsed_start < self.gap_start {
+            self.buffer.copy_within(self.parsed_start..self.gap_start, 0);
+        }
+        // [parsed_start, gap_start) moved to [0, gap_start - parsed_start)
+        self.gap_start -= self.parsed_start;
+        self.parsed_start = 0;
+
+        if self.gap_start < self.raw_start && self.raw_start < self.free_start {
+            self.buffer.copy_within(self.raw_start..self.free_start, self.gap_start);
+        }""",
+    """        let parsed_len = self.gap_start - self.parsed_start;
+        if parsed_len < self.raw_start && self.raw_start < self.free_start {
+            self.buffer.copy_within(self.raw_start..self.free_start, parsed_len);
+        }
+        if 0 < self.parsed_start && self.parsed_start < self.gap_start {
+            self.buffer.copy_within(self.parsed_start..self.gap_start, 0);
+        }
+        self.gap_start = parsed_len;
+        self.parsed_start = 0;
+""",
+    "R3.10/compress/clobber", "moving the raw input first overwrites stream bytes that have not been moved yet")
+mut("c03-consume-stream-unclamped", "C03", ST,
+    """        self.parsed_start += min(amt, parsed_len);""",
+    """        let _ = parsed_len;
+        self.parsed_start += amt;""",
+    "R3.10/consume_stream/postcondition", "consuming more than is buffered pushes parsed_start past gap_start")
+mut("c03-move-input-keeps-offset", "C03", RQ,
+    """            self.input.copy_within(used_len..self.input_len, 0);""",
+    """            self.input.copy_within(used_len..self.input_len, 1);""",
+    "R3.10/move_input", "the remainder is not moved to the front")
+mut("c03-benign-consume-stream-reset", "C03", ST,
+    """        self.parsed_start += min(amt, parsed_len);""",
+    """        if amt >= parsed_len {
+            self.parsed_start = 0;
+            self.gap_start = 0;
+        } else {
+            self.parsed_start += amt;
+        }""",
+    None, "an emptied stream buffer is reset to the front: same content, invariant kept")
+mut("c03-benign-compress-with-local", "C03", ST,
+    """        // [parsed_start, gap_start) moved to [0, gap_start - parsed_start)
+        self.gap_start -= self.parsed_start;
+        self.parsed_start = 0;
+
+        if self.gap_start < self.raw_start && self.raw_start < self.free_start {
+            self.buffer.copy_within(self.raw_start..self.free_start, self.gap_start);
+        }""",
+    """        let parsed_len = self.gap_start - self.parsed_start;
+        self.gap_start = parsed_len;
+        self.parsed_start = 0;
+
+        if parsed_len < self.raw_start && self.raw_start < self.free_start {
+            self.buffer.copy_within(self.raw_start..self.free_start, parsed_len);
+        }""",
+    None, "same geometry through a local")
+
 mut("c03-fatal-falls-through", "C03", RQ,
     """                Done(_) | Fatal(_) => return (data, self),""",
     """                Done(_) => return (data, self),
